@@ -128,7 +128,13 @@ where
 impl Arithmetic for i128 {
     fn add(self, other: Expression) -> Result<Expression, Error> {
         match other {
-            Expression::Number(y) => Ok(Expression::Number(self + y)),
+            Expression::Number(y) => self.checked_add(y).map(Expression::Number).ok_or_else(|| {
+                Error::InvalidBinaryOp(
+                    "add (arithmetic overflow)".to_string(),
+                    format!("{self:?}"),
+                    format!("{y:?}"),
+                )
+            }),
             Expression::None => Ok(Expression::Number(self)),
             _ => Err(Error::InvalidBinaryOp(
                 "add".to_string(),
@@ -144,7 +150,9 @@ impl Arithmetic for i128 {
     }
 
     fn neg(self) -> Result<Expression, Error> {
-        Ok(Expression::Number(-self))
+        self.checked_neg().map(Expression::Number).ok_or_else(|| {
+            Error::InvalidUnaryOp("neg (arithmetic overflow)".to_string(), format!("{self:?}"))
+        })
     }
 }
 
